@@ -412,6 +412,17 @@ theorem default_patterns_unregistered_not_found (tns : Text) (ms : List Method) 
     rw [ha] at this
     exact hu m hm (List.cons.inj this).2.symm
 
+/-! ### a protocol instance serves the application it was given to first, and no other -/
+
+/-- whatever sequence of applications a protocol instance is handed to (as in- or out-protocol of an
+    `Application`, by `set_out_protocol`): if no call was refused, all of them were the SAME application
+    object - so `get_call_handles`, which looks the name up in the bound application's interface, can never
+    run a method registered only in another application (equal tns and name do not make two applications one) -/
+theorem protocol_serves_one_application (a : Nat) (as : List Nat) (st : Option Nat)
+    (h : setApps facts11 none (a :: as) = some st) : st = some a ∧ ∀ x ∈ as, x = a := by
+  simp only [setApps, setApp] at h
+  exact setApps_bound facts11 (by decide) a as st h
+
 /-! ### SOAP: what the header contains never selects the method -/
 
 /-- Soap11 and Soap12: the request is named by the first child of the Envelope's own Body child; the blocks
@@ -526,5 +537,7 @@ example : soapMethod facts11 "E".toList (.node (some "E".toList) "Envelope".toLi
     some (some "t".toList, "echo".toList) := by decide
 example : fillPatterns facts11 { fid := 1, func := "get_thing".toList, inMsg := some "fetch".toList } "fetch".toList
     [(some ["GET".toList], none)] = [(some ["GET".toList], "fetch".toList)] := by decide
+
+example : setApps facts11 none [7, 7, 7] = some (some 7) ∧ setApps facts11 none [7, 8] = none := by decide
 
 end SpyneModel.Props.C11
